@@ -124,14 +124,14 @@ func (h *c22) propose(cl *cliTask, ri int, target int, onFinish func(p *proposal
 	if n.down {
 		p.pending = false
 		p.err = fmt.Errorf("store down")
-		w.res.Trace.Add("propose c%d %s -> s%d down", cl.id, p.tag, n.id)
+		w.tr("propose c%d %s -> s%d down", cl.id, p.tag, n.id)
 		w.res.Probes["target_down"]++
 		if onFinish != nil {
 			onFinish(p)
 		}
 		return true
 	}
-	w.res.Trace.Add("propose c%d %s -> s%d", cl.id, p.tag, n.id)
+	w.tr("propose c%d %s -> s%d", cl.id, p.tag, n.id)
 	w.dispatch(cl, func() {
 		p.resp, p.err = n.st.ProposeCommand(req)
 	}, func() {
@@ -161,11 +161,11 @@ func (h *c22) finished(p *proposal) {
 	n := p.node
 	switch {
 	case p.err != nil:
-		w.res.Trace.Add("result %s err", p.tag)
+		w.tr("result %s err", p.tag)
 		w.res.Probes["proposal_error"]++
 		return
 	case p.resp.GetRegionError() != nil:
-		w.res.Trace.Add("result %s region-error notleader=%v", p.tag, p.resp.GetRegionError().GetNotLeader() != nil)
+		w.tr("result %s region-error notleader=%v", p.tag, p.resp.GetRegionError().GetNotLeader() != nil)
 		w.res.Probes["proposal_region_error"]++
 		return
 	}
@@ -179,7 +179,7 @@ func (h *c22) finished(p *proposal) {
 	cnt := n.tagCount[fmt.Sprintf("%d/%s", p.region, p.tag)]
 	from, known := n.respTag[p.resp]
 	w.mu.Unlock()
-	w.res.Trace.Add("result %s ok applied=%d from=%s", p.tag, cnt, from)
+	w.tr("result %s ok applied=%d from=%s", p.tag, cnt, from)
 	if !n.wasLeaderSince(p.region, p.callStep) {
 		w.res.Violate(w.opIdx, "accepted_by_non_leader", map[string]string{"op": "propose"},
 			"store %d reported success for %s although it was never leader of region %d while the call was in flight", n.id, p.tag, p.region)
@@ -269,7 +269,7 @@ func execC22(t *testing.T, c *sim.Case) *sim.Result {
 				h.propose(w.clients[ci], ri, target, func(p *proposal) { h.learn(p, ci, ri) })
 			default:
 				if w.faultOp(op) {
-					res.Trace.Add("op %s", op.String())
+					w.tr("op %s", op.String())
 					synctest.Wait()
 					w.afterStep()
 				}
@@ -306,7 +306,7 @@ func execC22(t *testing.T, c *sim.Case) *sim.Result {
 				res.Violate(w.opIdx, "no_progress_after_heal", nil,
 					"region %d: no fresh proposal succeeded within 30 simulated seconds after the last fault (%s)", w.regions[ri].ID, w.describe())
 			} else {
-				res.Trace.Add("liveness r%d ok after %dms", w.regions[ri].ID, (w.now()-t0)/time.Millisecond)
+				w.tr("liveness r%d ok after %dms", w.regions[ri].ID, (w.now()-t0)/time.Millisecond)
 			}
 		}
 		h.summary()
